@@ -3,6 +3,7 @@
 import json, os
 import vlib
 from props.common import run_vectors
+from props import udpflow
 
 KEYS3 = {"p1": "A", "p2": "A", "p3": "B"}
 INVS = ["NoResidue", "NoLostTask", "NoForeignQueue", "PerKeyFifo", "OneAtATime", "NoDuplicate"]
@@ -149,5 +150,8 @@ def run(tier, v, wd, replay=None):
     with open(tfile, "a") as f:
         f.write(open(t2).read())
     run_vectors(v, wd, repo, "./control/", "TestVerifC13TupleTracker", tfile, tags="verif,dae_stub_ebpf", timeout=900, outname="out-tt.json")
+    # fourth part: the endpoints as handlePkt uses them (UdpFlow.tla): the key a datagram is looked up and dialled under, no second dial
+    # while the key's endpoint is alive, the retry after a failed write, transports closed exactly once
+    udpflow.run("C13", tier, v, wd, repo)
     v.assumptions += ["schedules are forced at the verif yield points of udp_task_pool.go; steps between two yield points are atomic in the model",
                       "replay runs with GOMAXPROCS(1) so that sync.Pool behaves as the modelled private slot + shared chain"]
